@@ -220,14 +220,28 @@ def ob_concrete_history(ir_dir, n, edges):
 
 
 def ob_is_reachable(ir_dir, n, pairs):
-  """(4): is_reachable(a, b) returns bit(a, b), arbitrary contents."""
+  """(4): is_reachable(a, b) returns bit(a, b), arbitrary contents.  On
+  failure the query is repeated on reachable (closed) matrices so that the
+  model can be replayed as an edge history."""
   out = []
   for a, b in pairs:
     it = new_interp(ir_dir)
     obj, rows, mat = make_analyzer(it, n)
     r = it.call(F_IS_REACH, [bv(obj), bv(a, 32), bv(b, 32)])
-    res, _ = prove(it, r[1] != cbit(mat[a], b))
-    out.append({"ob": "is_reachable", "n": n, "src": a, "dst": b, "result": str(res)})
+    res, model = prove(it, r[1] != cbit(mat[a], b))
+    needs_inv = False
+    if res == z3.sat:
+      res, model = prove(it, r[1] != cbit(mat[a], b), extra=closed_precondition(mat, n),
+                         timeout_s=180)
+      needs_inv = True
+    entry = {"ob": "is_reachable", "n": n, "src": a, "dst": b, "result": str(res),
+             "needs_invariant": needs_inv}
+    if res == z3.sat:
+      entry["matrix"] = [[model.eval(w, model_completion=True).as_long() for w in row]
+                         for row in mat]
+    out.append(entry)
+    if res != z3.unsat:
+      break
   return out
 
 
